@@ -61,11 +61,11 @@ class RbufGen:
     def random(self, rng, n, tier, focus=None):
         out = []
         for _ in range(n):
-            cap = rng.choice([1, 2, 3, 4, 5, 7, 8, 10, 12])
+            cap = rng.choice([1, 2, 3, 4, 5, 7, 8, 10, 12, 15, 16, 17, 31, 32, 33, 64, 100, 257])
             ops = [f"new cap={cap}"] if rng.random() > 0.05 else ["new_default"]
             if ops[0] == "new_default":
                 cap = 10
-            length = rng.randint(1, 60)
+            length = rng.randint(1, 60) if cap <= 12 else rng.randint(cap, 4 * cap + 20)
             p_enq = rng.choice([0.3, 0.5, 0.7, 0.9])
             for _ in range(length):
                 if focus in ("reject", "all") and rng.random() < 0.15:
